@@ -195,12 +195,18 @@ impl BinaryMatrix for DenseBinaryMatrix {
 
     fn get_row_iter(&self, row: usize, start_col: usize, end_col: usize) -> OctetIter<'_> {
         let (first_word, first_bit) = self.bit_position(row, start_col);
-        let (last_word, _) = self.bit_position(row, end_col);
+        // Only the words of columns start_col..end_col: the word of end_col itself may lie past
+        // the end of the storage (last row, end_col == width, width a multiple of 64)
+        let end_word = if end_col > start_col {
+            self.bit_position(row, end_col - 1).0 + 1
+        } else {
+            first_word
+        };
         OctetIter::new_dense_binary(
             start_col,
             end_col,
             first_bit,
-            &self.elements[first_word..=last_word],
+            &self.elements[first_word..end_word],
         )
     }
 
